@@ -12,7 +12,7 @@
 EXTENDS WebOps
 
 CONSTANTS RawNames,     \* names used in URLs, e.g. {"a", "e2"} ("e2" is stored as "e1")
-          SlotKinds,    \* what an initial slot may hold: subset of {"absent", "file", "dir", "mfile"}
+          SlotKinds,    \* what an initial slot may hold: subset of {"absent", "file", "dir", "mfile", "rodir"}
           StartDirs,    \* the directories whose caps the URLs start with (the worlds are symmetric under d1 <-> d2)
           MaxOps,
           Small         \* TRUE: the reduced request universe (for MaxOps > 1)
@@ -31,8 +31,10 @@ File(i, w) == [id |-> i, type |-> "file", w |-> w]
 Dir(i, w)  == [id |-> i, type |-> "dir", w |-> w]
 
 InitEntryOf(d, kind) ==
-  [child |-> CASE kind = "file" -> File("fc1", FALSE) [] kind = "mfile" -> File("g1", TRUE) [] kind = "dir" -> Dir(Other(d), TRUE),
-   md |-> "m1", hasT |-> TRUE, crt |-> 1, mot |-> 2]
+  \* "rodir": the other directory linked read-only by a link whose metadata says no-write
+  [child |-> CASE kind = "file" -> File("fc1", FALSE) [] kind = "mfile" -> File("g1", TRUE) [] kind = "dir" -> Dir(Other(d), TRUE)
+               [] kind = "rodir" -> Dir(Other(d), FALSE),
+   md |-> IF kind = "rodir" THEN "nw" ELSE "m1", hasT |-> TRUE, crt |-> 1, mot |-> 2]
 \* an assignment slot -> kind
 Assignments == [Dirs0 \X StoredNames -> SlotKinds]
 WorldOf(asg) ==
